@@ -113,32 +113,20 @@ let verdict case impl =
       else "diff acceptor-rejected " ^ where
     end else
       (* 2. every USE statement text the mock received is the model's text of a VALID name that was
-            handed to use_keyspace.  `viol` only if a text carries a character that can end or extend
-            the identifier (anything but alphabet / blank / double quote / semicolon) or an identifier
-            that was never requested as a valid name; a mere reformatting is `diff`. *)
+            handed to use_keyspace: extracted [texts_verdict] (Model/Keyspace.v section 8).  TViol
+            (C20_text_viol_iff) = the text is no requested name's model text AND carries a character other
+            than alphabet / blank / double quote / semicolon or an identifier that is not a requested valid
+            name; a mere reformatting is TDiff; the model's own texts are TOk (C20_statement_never_viol). *)
       let callk = if calls = "-" then [] else
           List.filter_map (fun c ->
               match String.split_on_char ':' c with
               | [nm; cs] -> (match make_verified (name_of nm) (bool_of cs) with Ok k -> Some k | Err _ -> None)
               | _ -> failwith "bad call") (split_on ';' calls) in
       let seen = if texts = "-" then [] else List.map name_of (split_on ';' texts) in
-      let expected = List.map use_statement callk in
-      let is_alpha c = valid_nameb [c] in
-      let benign c = is_alpha c || List.mem (int_of_n c) [32; 34; 59] in
-      let rec idents acc cur = function
-        | [] -> List.rev (if cur = [] then acc else List.rev cur :: acc)
-        | c :: r -> if is_alpha c then idents acc (c :: cur) r
-          else idents (if cur = [] then acc else List.rev cur :: acc) [] r in
-      let requested = List.map fst callk in
-      let harmless t =
-        List.for_all benign t &&
-        (match idents [] [] t with
-         | kw :: rest -> eq_ci kw (name_of "55,53,45") && rest <> [] && List.for_all (fun i -> List.mem i requested) rest
-         | [] -> false) in
-      (match List.find_opt (fun t -> not (List.mem t expected)) seen with
-       | None -> "ok"
-       | Some t -> if harmless t then "diff statement-text-reformatted " ^ str_of_name t
-         else "viol statement-text " ^ str_of_name t)
+      (match texts_verdict callk seen with
+       | (TOk, _) -> "ok"
+       | (TDiff, t) -> "diff statement-text-reformatted " ^ str_of_name t
+       | (TViol, t) -> "viol statement-text " ^ str_of_name t)
   (* use_keyspace returned Ok for a name the runner considers invalid: a violation of the second
      sentence iff the specification says the name is invalid *)
   | ("E" :: _), ["invalid-accepted"; nm] ->
